@@ -144,12 +144,8 @@ def catalogue_shapes(tier="quick"):
     add("holes_long_run_i16_small_span", lambda r: [-300] + list(range(-200, 100)) + [200, 201] if r == "i16" else None, ["i16"])
 
     if tier == "thorough":
-        # the documented size limit, and runs longer than half of a 16-bit repr
+        # the documented size limit (one module: rustc needs minutes for it)
         add("huge_u16_gapless_65534", lambda r: list(range(0, 65534)) if r == "u16" else None, ["u16"])
-        add("huge_i16_two_long_runs", lambda r: list(range(-32768, 0)) + list(range(1, 32766)) if r == "i16" else None, ["i16"])
-        add("huge_i32_many_runs_40000",
-            lambda r: runs_to_values([(-70000 + k * 450, -70000 + k * 450 + 399) for k in range(100)]) if r == "i32" else None,
-            ["i32"])
 
     def big(n, runs, start):
         def f(r):
@@ -345,7 +341,7 @@ def draw_config(rng, gapless, iter_mode, force=None):
     if c["iter"] == "table_inline":
         c["range"] = False
     if force and force.get("_huge"):
-        c["flags"] = [f for f in c["flags"] if f not in ("Debug", "Display", "IntoStr")]
+        c["flags"] = ["try_from", "TryFrom", "MIN", "next", "next_back"]
     c.pop("_huge", None)
     # Debug/Display/IntoStr pull in as_str automatically; nothing to fix up
     return c
@@ -548,13 +544,9 @@ def plan_corpus(seed, tier, shard=0):
         modes = legal_iter_modes(gapless)
         out = []
         if len(values) > 5000:
-            # compile time (minutes per module): few configurations, no string feature in match mode
-            # (HUGE_OK_FLAGS below keeps Debug/Display/IntoStr, which would pull in a 65534-arm match, out)
+            # compile time (minutes): one fixed configuration, no string feature in match mode
             out.append(("next_and_back", {"as_str": "table", "range": True, "names": True, "from_str": None, "FromStr": None,
                                           "_huge": True}))
-            if gapless:
-                out.append(("table", {"range": True, "names": False, "as_str": None, "from_str": None, "FromStr": None,
-                                      "_huge": True}))
             return out
         for m in modes:
             if m == "table_inline" and len(values) > 300:
